@@ -1539,6 +1539,12 @@ def scen_release(rng, n):
             out.append("(conc C17-rel-%d (pipe (sub (take 1 %s) (react (0 (sleep 20))))))" % (i, p)); i += 1
             out.append("(conc C17-rel-%d (pipe (sub %s (react (0 (sleep 20))))))" % (i, p)); i += 1
             out.append("(conc C17-rel-%d (pipe (sub %s (react (1 unsub)))))" % (i, p)); i += 1
+    # an INNER subscription through a scheduler / timer operator is being made on the source's thread (flat_map) at the
+    # very instant at which another thread ends the outer subscription
+    for inner in ("(subscribe_on (map inc (from_iter 7 8)))", "(observe_on (map inc (from_iter 7 8)))", "(delay 3 (map inc (from_iter 7 8)))",
+                  "(subscribe_on (observe_on (from_iter 7 8)))", "(debounce 4 (map inc (from_iter 7 8)))"):
+        for t in (5, 10):
+            out.append("(conc C17-rel-%d (pipe (def x %s) (sub (flat_map (fm_ref x) (tsrc 0 (5 (n 0)) (5 (n 0)))) (react)) (unsub-after 0 %d)))" % (i, inner, t)); i += 1
     for mk in ("(interval 10)", "(timer 15)", "(sample (tsrc 0 (3 (n 1)) (3 (n 2)) (25 (n 3))) (interval 10))", "(merge (interval 10) (observe_on (from_iter 1 2 3)))",
                "(flat_map fm_two (observe_on (from_iter 1 2)))", "(zip (observe_on (from_iter 1 2 3)) (interval 5))"):
         out.append("(conc C17-rel-%d (pipe (sub %s (react (0 (sleep 12)))) (unsub-after 0 14)))" % (i, mk)); i += 1
